@@ -31,44 +31,9 @@ def nontrivial(s, t, v):
 # resumed on a later tick) is not run there.  The order clauses for that path are evaluated on the C07 engine (h_hook, scripted
 # hooks): the attempts of one kill cycle, over all its ticks, are in rank order.  Only the C03.* clauses count here.
 
-def hook_scenarios(rng, tier):
-    from . import C07
-    n = {"quick": 1500, "thorough": 20000, "search": 4000}[tier]
-    for _ in range(n):
-        s = C07.gen_one(rng, tier)
-        s["prop"] = PROP
-        yield s
-
-
 def run(tier, seed, replay=None):
-    import json
-    import os
-    import random
     import sys
-    from .. import core
-    from . import C07
-    mod = sys.modules[__name__]
-
-    def want(c):
-        return c.startswith("C03.")
-    if replay:
-        rp = json.load(open(replay))
-        if rp.get("pass") == "hookorder":
-            viol, _, _ = core.extra_pass(PROP, "hook", "h_hook", "asan", [rp["scenario"]], tier, seed, want=want, label="hookorder")
-            for c, p in viol:
-                print("VIOLATION property=%s replay=%s" % (PROP, p))
-            return 1 if viol else 0
-        return core.run_check(mod, tier, seed, replay)
-    rc = core.run_check(mod, tier, seed, replay)
-    esc = tier == "quick" and core.changed_sources() and not os.environ.get("VERIF_NO_ESCALATION")
-    scs = list(hook_scenarios(random.Random(seed * 6011 + 19), "search" if esc else tier))
-    viol, cov, res = core.extra_pass(PROP, "hook", "h_hook", "asan", scs, tier, seed, want=want,
-                                     shrink_candidates=C07.shrink_candidates, label="hookorder")
-    cov["hookorder_pass_cycles_with_fallback_after_wait"] = sum(1 for s, t, v in res if "fallback_fires" in (v.get("tags") or [])
-                                                                and "ticks_waited" in (v.get("tags") or []))
-    core.merge_extra_into_evidence(PROP, cov, len(viol),
-                                   "order pass (kill plugins with scripted prekill hooks, h_hook): the C07 scenario space; clause: the "
-                                   "attempts of one kill cycle, over all the ticks a hook defers it, are in (preference, key) order")
-    for c, p in viol:
-        print("VIOLATION property=%s replay=%s" % (PROP, p))
-    return 1 if (rc or viol) else 0
+    from . import _hookpass
+    return _hookpass.run(sys.modules[__name__], tier, seed, replay, "C03.", "hookorder",
+                         "order pass (kill plugins with scripted prekill hooks, h_hook): the C07 scenario space; clause: the "
+                         "attempts of one kill cycle, over all the ticks a hook defers it, are in (preference, key) order")
